@@ -19,6 +19,7 @@ THEOREMS = [
     "C07.type_family_detected",
     "C07.default_change_detected",
     "C07.changed_str",
+    "C07.changed_of_value",
     "C07.detect_addTable",
     "C07.detect_dropTable",
     "C07.detect_addColumn",
@@ -37,7 +38,7 @@ THEOREMS = [
 ]
 PARTIAL = {
     "C07.detect_partial": "hypothesis SchemaOk cfg on the base schema (compared defaults plain, compared types reflect by name); without it the statement is refuted by detect_counterexample (F9: an untouched column with server_default=\"it's\" is reported next to any change)",
-    "C07.detect_changeDefault": "'the default changed' is the metadata-side normal form changedDefault (for string defaults: the values differ, changed_str; adding / removing a default always counts)",
+    "C07.detect_changeDefault": "'the default changed' is the metadata-side normal form changedDefault; changed_of_value derives it from Spec.Diff.defaultValue (string value / SQL-unquoted stored expression) differing, for plain defaults whose expression text contains no double quote; adding / removing a default always counts",
 }
 TRUSTED = [
     "Model.Diff.ddlTy / reflTy / sqliteStore / createAll / reflect: my tables of SQLAlchemy's SQLite type compiler, SQLite's stored default text and the inspector; validated against the live inspector by C06 on every run",
@@ -65,6 +66,8 @@ def run(ctx, n_bases=None, rng_name="main"):
         ctx.hist("base.class", "odd" if odd else "plain")
         ctx.hist("base.tables", len(a["tables"]))
         for desc, b in G.candidate_mutations(rng, a, odd):
+            if desc["m"] == "changeFKOptions":
+                continue  # two ops (drop + add): an edit for C06 pairs, not a catalogue mutation
             K.run_mutation(ctx, a, desc, b, pending)
         if i < 2:
             ctx.sample({"a": a})
